@@ -462,6 +462,8 @@ class Module(ABC):
         nodes = self._nodes_in_view if is_str_all(nodes) else nodes
         nodes = np.sort(nodes) if sorted else nodes
 
+        if isinstance(edges, slice):
+            edges = np.arange(len(self.base.edges))[edges]
         edges = self._reformat_index(edges) if edges is not None else None
         edges = self._edges_in_view if is_str_all(edges) else edges
         edges = np.sort(edges) if sorted else edges
@@ -524,9 +526,20 @@ class Module(ABC):
         mask_inds = self._bool_to_global_index(idx, self.edges[f"global_{key}_index"])
         if mask_inds is not None:
             idx, scope = mask_inds, "global"
+        # Slices refer to synapses, not to compartments (`_reformat_index` cuts them
+        # against the number of compartments).
+        if isinstance(idx, slice):
+            idx = np.arange(len(self.base.edges))[idx]
         idx = self._reformat_index(idx)
-        idx = self.edges[scope + f"_{key}_index"] if is_str_all(idx) else idx
-        where = self.edges[scope + f"_{key}_index"].isin(idx)
+        column = scope + f"_{key}_index"
+        if column in self.edges.columns:
+            edge_index = self.edges[column]
+        else:
+            # Without a local index (only views of one synapse type have one), synapses
+            # are counted within the view.
+            edge_index = pd.Series(np.arange(len(self.edges)), index=self.edges.index)
+        idx = edge_index if is_str_all(idx) else idx
+        where = edge_index.isin(idx)
         inds = self.edges.index[where].to_numpy()
 
         view = View(self, edges=inds)
